@@ -12,7 +12,7 @@ done
 .venv/bin/python - <<'PY'
 import json, jsonschema, glob
 sch=json.load(open('/root/.vp/EVIDENCE.schema.json'))
-for f in sorted(glob.glob('/verif/evidence/*.json')):
+for f in sorted(glob.glob('evidence/*.json')):
     try: jsonschema.validate(json.load(open(f)), sch); print(f, 'valid')
     except Exception as ex: print(f, 'INVALID', str(ex)[:200])
 PY
